@@ -115,11 +115,66 @@ def _return_sources(d, rb, ret_local, lo, hi):
         if hops >= 4:
             return
         for p in preds.get(b, []):
-            if not (lo <= p < hi) or d["blocks"][p]["term"]["k"] != "goto" or any(s_["k"] != "assign" for s_ in d["blocks"][b]["stmts"]):
+            if not (lo <= p < hi) or any(s_["k"] != "assign" for s_ in d["blocks"][b]["stmts"]):
                 continue
-            walk(p, [b] + tail, hops + 1)
+            pt = d["blocks"][p]["term"]
+            if pt["k"] == "goto":
+                walk(p, [b] + tail, hops + 1)
+            elif pt["k"] == "call" and pt.get("t") == b and not pt["dest"]["pr"] and pt["dest"]["l"] == ret_local \
+                    and str((pt.get("f") or {}).get("path", "")).endswith("FromResidual::from_residual"):
+                # `return Err(From::from(e))` of an inner `?`: the residual side
+                ty = str(d["locals"][ret_local].get("ty", ""))
+                out.append((p, ("variant", "None" if "option::Option<" in ty else "Err", None), [b] + tail))
     walk(rb, [], 0)
     return out
+
+
+def _thread_through_try(d, t, tb, tt, L0, B0, nb):
+    """the `?` form: the continuation calls `Try::branch(result)` and then switches on Continue / Break.  A return site of the
+    callee that builds `Ok(..)` / `Some(..)` goes to the Continue arm, one that builds `Err(..)` / `None` to the Break arm (the
+    `branch` call is kept — its result is used by both arms — only the edge that cannot be taken is cut)."""
+    f = tt.get("f") or {}
+    if not str(f.get("path", "")).endswith("Try::branch") and not str(f.get("res", "")).endswith("::branch"):
+        return
+    dest = t["dest"]
+    a0 = tt["args"][0] if tt.get("args") else {}
+    pl = a0.get("mv") or a0.get("cp")
+    if pl is None or pl["pr"] or pl["l"] != dest["l"] or tt.get("t") is None or tt["dest"]["pr"]:
+        return
+    T2 = tt["t"]
+    tb2 = d["blocks"][T2]
+    t2 = tb2["term"]
+    if t2["k"] != "switch" or any(s_["k"] != "assign" for s_ in tb2["stmts"]):
+        return
+    sw = t2["o"].get("mv") or t2["o"].get("cp")
+    if sw is None or sw["pr"]:
+        return
+    is_discr = any(s_["p"]["l"] == sw["l"] and not s_["p"]["pr"] and s_["rv"]["k"] == "discr" and s_["rv"]["p"]["l"] == tt["dest"]["l"] and not s_["rv"]["p"]["pr"] for s_ in tb2["stmts"])
+    if not is_discr:
+        return
+    arm = {"Ok": 0, "Some": 0, "Continue": 0, "Err": 1, "None": 1, "Break": 1}
+    for rb in range(B0, B0 + nb):
+        if not d["blocks"][rb]["term"].get("inl_return"):
+            continue
+        for src, kv, tail in _return_sources(d, rb, L0, B0, B0 + nb):
+            if kv[0] != "variant" or kv[1] not in arm:
+                continue
+            v = arm[kv[1]]
+            tgt = t2["tgts"][t2["vals"].index(v)] if v in t2["vals"] else t2["tgts"][-1]
+            st = d["blocks"][src]["term"]
+            if st["k"] not in ("goto", "call"):
+                continue
+            between = []
+            for x in tail:
+                between.extend(dict(y) for y in d["blocks"][x]["stmts"])
+            n0 = len(d["blocks"])
+            # block 1: the assignments up to and including the `branch` call; block 2: the switch's own statements, then the arm
+            d["blocks"].append({"cleanup": False, "inl": d["blocks"][src].get("inl"),
+                                "stmts": between + [{"k": "assign", "p": dest, "rv": {"k": "use", "o": {"mv": {"l": L0, "pr": []}}}, "ln": t.get("ln")}] + [dict(x) for x in tb["stmts"]],
+                                "term": dict(tt, t=n0 + 1, threaded=True)})
+            d["blocks"].append({"cleanup": False, "inl": d["blocks"][src].get("inl"), "stmts": [dict(x) for x in tb2["stmts"]],
+                                "term": {"k": "goto", "t": tgt, "ln": t2.get("ln"), "threaded": True}})
+            d["blocks"][src]["term"] = dict(st, t=n0)
 
 
 def _thread_returns(d, t, L0, B0, nb, cont):
@@ -130,10 +185,13 @@ def _thread_returns(d, t, L0, B0, nb, cont):
     T = t["t"]
     tb = d["blocks"][T]
     tt = tb["term"]
-    if tt["k"] != "switch" or any(s_["k"] != "assign" for s_ in tb["stmts"]):
-        return
     dest = t["dest"]
-    if dest["pr"]:
+    if dest["pr"] or any(s_["k"] != "assign" for s_ in tb["stmts"]):
+        return
+    if tt["k"] == "call":
+        _thread_through_try(d, t, tb, tt, L0, B0, nb)
+        return
+    if tt["k"] != "switch":
         return
     # the switch operand: the destination itself (bool / integer) or `discriminant(dest)` computed in T
     pl = tt["o"].get("mv") or tt["o"].get("cp")
@@ -176,7 +234,7 @@ def _thread_returns(d, t, L0, B0, nb, cont):
                                 "stmts": between + [{"k": "assign", "p": dest, "rv": {"k": "use", "o": {"mv": {"l": L0, "pr": []}}}, "ln": t.get("ln")}] + [dict(x) for x in tb["stmts"]],
                                 "term": {"k": "goto", "t": tgt, "ln": tt.get("ln"), "threaded": True}})
             st = d["blocks"][src]["term"]
-            if st["k"] == "goto":
+            if st["k"] in ("goto", "call"):
                 d["blocks"][src]["term"] = dict(st, t=len(d["blocks"]) - 1)
             else:
                 d["blocks"].pop()
